@@ -579,6 +579,63 @@ def user_pit(spec, rng):
             nd['pit'], nd['pit_frozen'] = part[i]
 
 
+def gen_mps(rng):
+    """small 2-D architectures for the MPS (PER_CHANNEL, 0-bit = channel pruning) stream: plain convolutions, residual adds of
+    (producer, conv) and of two convolutions, channel cats of searchable / pass-through tensors, pooling, and heads
+    add/cat -> relu -> pool -> flatten -> fc with spatial size 1 and > 1"""
+    g = G(rng, 2, {'cmax': 6, 'bn': False, 'p_stride': 0.0})
+    g.excl = []
+    hw = rng.choice([4, 6, 8])
+    cur = g.add(k='in', shape=[rng.randint(1, 3), hw, hw])
+
+    def conv(src, cout=None):
+        c = g.sh(src)[0]
+        kk = rng.choice([1, 3])
+        return g.add(k='conv2d', src=src, cin=c, cout=cout or rng.randint(2, 6), ks=[kk, kk], dil=1, stride=1, groups=1, bias=True, padding=kk // 2)
+    cur = g.add(k='relu', src=conv(cur))
+    g.prod.append('mps:stem')
+    for _ in range(rng.randint(1, 3)):
+        kind = rng.choice(['conv', 'res', 'res', 'res2', 'cat', 'pool'])
+        g.prod.append('mps:' + kind)
+        c = g.sh(cur)[0]
+        if kind == 'conv':
+            cur = g.add(k='relu', src=conv(cur))
+        elif kind == 'res':
+            a = conv(cur, c)
+            cur = g.add(k='add', src=[cur, a] if rng.random() < 0.5 else [a, cur])
+            cur = g.add(k=rng.choice(['relu', 'relu_f']), src=cur) if rng.random() < 0.7 else cur
+        elif kind == 'res2':
+            co = rng.randint(2, 6)
+            a, b = conv(cur, co), conv(cur, co)
+            cur = g.add(k='relu', src=g.add(k='add', src=[a, b]))
+        elif kind == 'cat':
+            # operands of equal width: MPS lets the operands of a cat share one per-channel weight quantizer
+            # (its sharing graph is not cut at concatenations), different widths do not construct
+            a = g.add(k='relu', src=conv(cur, c if rng.random() < 0.5 else None))
+            through_cat = any(nd['k'] == 'cat' for nd in g.nodes)     # a pass-through operand would tie this cat to an earlier one
+            b = cur if g.sh(a)[0] == c and not through_cat and rng.random() < 0.5 else conv(cur, g.sh(a)[0])
+            cur = g.add(k='cat', src=[a, b] if rng.random() < 0.5 else [b, a], dim=1)
+        elif min(g.sh(cur)[1:]) >= 4:
+            cur = g.add(k=rng.choice(['avgpool2d', 'maxpool2d']), src=cur, ks=2)
+    r = rng.random()
+    if r < 0.4 and min(g.sh(cur)[1:]) >= 2:
+        cur = g.add(k='avgpool2d', src=cur, ks=2)
+        g.prod.append('mps:head-pool-flatten')
+    elif r < 0.7:
+        cur = g.add(k='gap2d', src=cur)
+        g.prod.append('mps:head-gap-flatten')
+    else:
+        g.prod.append('mps:head-flatten')
+    cur = g.add(k='flatten', src=cur, start=1, form=rng.choice(['fn', 'method', 'module']))
+    f = g.sh(cur)[0]
+    if rng.random() < 0.5:
+        h = rng.randint(2, 5)
+        cur = g.add(k='relu', src=g.add(k='linear', src=cur, cin=f, cout=h, bias=True))
+        f = h
+    cur = g.add(k='linear', src=cur, cin=f, cout=rng.randint(2, 4), bias=True)
+    return {'dim': 2, 'nodes': g.nodes, 'out': [cur], 'productions': g.prod, 'method': 'mps'}
+
+
 def describe(spec):
     def ax(nd):
         d = nd.get('sdim', nd.get('dim')) if nd['k'] == 'cat' else nd.get('sstart') if nd['k'] == 'flatten' else nd.get('dim') if nd['k'] in ('squeeze', 'unsqueeze') else None
